@@ -90,6 +90,13 @@ namespace {
     if (tab_.nsamples < 2 or tab_.nsamples > MAX_NSAMPLES) {
       throw std::logic_error(where_ + ": Invalid number of energy samples [" + std::to_string(tab_.nsamples) + "]!");
     }
+    if (tab_.e_min[0] < 0.0 or !(tab_.e_min[0] < tab_.e_max[0])) {
+      throw std::logic_error(where_ + ": Invalid range of sampled energies!");
+    }
+    if (!(tab_.esum_max > 0.0) or tab_.e_max[0] > tab_.esum_max or !(2 * tab_.e_min[0] < tab_.esum_max)) {
+      // No electron can carry more than the maximum energy sum, and the lowest sampled pair must be allowed:
+      throw std::logic_error(where_ + ": Sampled energies are inconsistent with the maximum energy sum!");
+    }
     return;
   }
 
